@@ -158,12 +158,16 @@ thread_local! {
 pub struct Env {
     pub thp_anon: bool,
     pub thp_file: bool,
+    /// the kernel / file system of the scratch directory can map a file read-only at all
+    pub file_mmap: bool,
+    pub anon_mmap: bool,
 }
 /// Ask the kernel directly (not through the library) whether MADV_HUGEPAGE is accepted.
 fn preflight(scratch: &std::path::Path) -> Env {
     unsafe {
         let len = 1 << 16;
         let p = libc::syscall(libc::SYS_mmap, 0usize, len, libc::PROT_READ | libc::PROT_WRITE, libc::MAP_PRIVATE | libc::MAP_ANONYMOUS, -1i32, 0usize);
+        let anon_mmap = p != -1;
         let thp_anon = p != -1 && libc::syscall(libc::SYS_madvise, p, len, libc::MADV_HUGEPAGE) == 0;
         if p != -1 {
             libc::syscall(libc::SYS_munmap, p, len);
@@ -171,16 +175,31 @@ fn preflight(scratch: &std::path::Path) -> Env {
         let path = scratch.join("preflight.bin");
         let _ = std::fs::write(&path, vec![7u8; 5000]);
         let mut thp_file = false;
+        let mut file_mmap = false;
         if let Ok(f) = std::fs::File::open(&path) {
             use std::os::fd::AsRawFd;
+            let ps = libc::syscall(libc::SYS_mmap, 0usize, 5000usize, libc::PROT_READ, libc::MAP_SHARED, f.as_raw_fd(), 0usize);
+            if ps != -1 {
+                libc::syscall(libc::SYS_munmap, ps, 5000usize);
+            }
             let p = libc::syscall(libc::SYS_mmap, 0usize, 5000usize, libc::PROT_READ, libc::MAP_PRIVATE, f.as_raw_fd(), 0usize);
+            file_mmap = ps != -1 && p != -1;
             if p != -1 {
                 thp_file = libc::syscall(libc::SYS_madvise, p, 5000usize, libc::MADV_HUGEPAGE) == 0;
                 libc::syscall(libc::SYS_munmap, p, 5000usize);
             }
         }
         let _ = std::fs::remove_file(&path);
-        Env { thp_anon, thp_file }
+        Env { thp_anon, thp_file, file_mmap, anon_mmap }
+    }
+}
+/// Can this environment run `loader` at all? (asked of the kernel directly, never of the library)
+pub fn loader_supported(loader: Loader, flags: u32, scratch: &std::path::Path) -> bool {
+    let e = env(scratch);
+    match loader {
+        Loader::Mmap => e.file_mmap && (flags & 1 == 0 || e.thp_file),
+        Loader::LoadMmap => e.anon_mmap && (flags & 1 == 0 || e.thp_anon),
+        _ => true,
     }
 }
 pub fn env(scratch: &std::path::Path) -> Env {
@@ -365,6 +384,9 @@ impl<'a> World<'a> {
     }
 
     fn flags_supported(&self, loader: Loader, flags: u32) -> bool {
+        if loader == Loader::Mmap && !self.env.file_mmap || loader == Loader::LoadMmap && !self.env.anon_mmap {
+            return false;
+        }
         if flags & 1 == 0 {
             return true;
         }
